@@ -3530,6 +3530,13 @@ class PyCdlib:
             raise pycdlibexception.PyCdlibInternalError('Tried to remove joliet dir from non-Joliet ISO')
 
         joliet_child = self._find_joliet_record(joliet_path)
+
+        if not joliet_child.is_dir():
+            raise pycdlibexception.PyCdlibInvalidInput('Cannot remove a file with rm_directory (try rm_file instead)')
+
+        if len(joliet_child.children) > 2:
+            raise pycdlibexception.PyCdlibInvalidInput('Directory must be empty to use rm_directory')
+
         num_bytes_to_remove = joliet_child.get_data_length()
         num_bytes_to_remove += self._remove_child_from_dr(joliet_child,
                                                           joliet_child.index_in_parent)
@@ -5103,7 +5110,15 @@ class PyCdlib:
             # The File Identifier stores the name in its on-disc encoding
             # (latin-1 or utf-16_be), which differs from the UTF-8 path
             # component for any non-ASCII name, so look it up first.
-            udf_fi = udf_parent.find_file_ident_desc_by_name(udf_name).fi
+            udf_fi_desc = udf_parent.find_file_ident_desc_by_name(udf_name)
+
+            if not udf_fi_desc.is_dir():
+                raise pycdlibexception.PyCdlibInvalidInput('Cannot remove a file with rm_directory (try rm_file instead)')
+
+            if udf_fi_desc.file_entry is not None and any(not fi_desc.is_parent() for fi_desc in udf_fi_desc.file_entry.fi_descs):
+                raise pycdlibexception.PyCdlibInvalidInput('Directory must be empty to use rm_directory')
+
+            udf_fi = udf_fi_desc.fi
 
             num_extents_to_remove = udf_parent.remove_file_ident_desc_by_name(udf_fi,
                                                                               self.logical_block_size)
